@@ -194,7 +194,9 @@ def run(res, tier):
         else:
             scale = sum(first2) / sum(chosen) if sum(chosen) else 1
             dev = max(abs(a - b * scale) for a, b in zip(first2, chosen)) / mx
-            if dev > 1e-5 or abs(scale - 1) > 4 * (abs(1 - q) + 1e-6):
+            # the continued run renormalises what it loads (RenormalizeCharge >= 0 promises an initial renormalisation): the loaded state is the stored one
+            # divided by its recorded charge q, nothing else
+            if dev > 1e-5 or abs(scale * q - 1) > 2e-5:
                 res.violate("C11/loaded-state-differs/%s" % kb, case, "first record of the continued run deviates from the chosen record beyond a renormalisation (relative %.3g, scale %.8g)" % (dev, scale), replay=rp)
         # (b) the end state equals that of the uninterrupted run
         if exact:
@@ -208,9 +210,18 @@ def run(res, tier):
             qq = max(abs(1 - x) for x in pop + popf + d2["datasets"]["/BunchPopulation/data"]["data"])
             # with an impedance the kick itself scales with the charge: second contribution of the same order.  Over the 32-step horizon of the thorough tier the two runs
             # renormalise a dozen times each, at different steps: each stays within the drift of the never-renormalised shape, their difference within twice that
-            bound = (2 if imp != "none" else 1) * (TOTAL / 16.0) * (qq + 1e-6) * mx
+            # (a rescaling by 1/Q moves a value by |1/Q-1| <= qq/(1-qq), not by qq)
+            qe = qq / (1 - qq) if qq < 0.9 else 10.0
+            bound = (2 if imp != "none" else 1) * (TOTAL / 16.0) * (qe + 1e-6) * mx
+            if rn == 0 and imp == "none":
+                # one renormalisation only, linear dynamics: the continued run is the uninterrupted one divided by the charge recorded at the split - to rounding
+                devl = max(abs(a * q - b) for a, b in zip(final2, finalf))
+                res.coverage["worst_linear_rescaling_residual"] = max(res.coverage.get("worst_linear_rescaling_residual", 0), devl / mx)
+                if devl > 3e-5 * mx:
+                    res.violate("C11/end-state-differs/renorm=0/not-the-rescaled-uninterrupted-run", case,
+                                "without an impedance the continued run must end in the uninterrupted run's state divided by the charge at the split (%.6g): residual %.3g of the maximum" % (q, devl / mx), replay=rp)
             res.coverage["worst_drift_bounded_ratio"] = max(res.coverage.get("worst_drift_bounded_ratio", 0), dev / bound)
-            if dev > bound:
+            if dev > bound * 1.001 and not (rn == 0 and imp == "none"):      # (that case has the sharper oracle above)
                 res.violate("C11/end-state-differs/%s/%s" % (kb, "impedance" if imp != "none" else "no-impedance"), case,
                             "final phase space differs from the uninterrupted run by %.3g > bound %.3g (charge drift %.3g)" % (dev, bound, qq), replay=rp)
 
